@@ -85,7 +85,7 @@ class OnionWorld:
         for name in ("create_circuit", "send_data", "remove_circuit", "exit_return", "vanish", "node_remove_relay",
                      "node_remove_exit", "expect_quiet", "deliver", "lose", "dup", "tamper", "tamper_at", "tamper_header",
                      "splice", "inject", "adv_create", "adv_plain", "forge_destroy", "mangle_answer", "link_e2e",
-                     "send_e2e", "rp_forge", "transports_ready"):
+                     "send_e2e", "rp_forge", "transports_ready", "send_test"):
             setattr(self, name, self._stepper(getattr(self, name)))
 
     def _stepper(self, fn):
@@ -161,10 +161,12 @@ class OnionWorld:
             for cache in list(ov.request_cache._identifiers.values()):
                 if type(cache).__name__ == "PingRequestCache":
                     self.ident("ping", nm, cache.number)
+                if type(cache).__name__ == "TestRequestCache":
+                    self.ident("test", nm, cache.number)
 
     def project(self):
         self._scan_new_names()
-        st = {"circ": {}, "relay": {}, "exit": {}, "retryC": {}, "createdC": {}, "createC": {}, "pingC": {}}
+        st = {"circ": {}, "relay": {}, "exit": {}, "retryC": {}, "createdC": {}, "createC": {}, "pingC": {}, "testC": {}}
         for nm in self.names:
             ov = self.ov[nm]
             c = []
@@ -189,7 +191,7 @@ class OnionWorld:
                                         "open": bool(ex.transport_ipv4 is not None or ex.transport_ipv6 is not None),
                                         "queued": len(ex.queue)}]
             st["exit"][nm] = e
-            retry, created, create, ping = [], [], [], []
+            retry, created, create, ping, test = [], [], [], [], []
             for cache in ov.request_cache._identifiers.values():
                 cn = type(cache).__name__
                 if cn == "RetryRequestCache":
@@ -207,7 +209,10 @@ class OnionWorld:
                         "peer": self.name_of_addr(cache.peer.address), "toPeer": self.name_of_peer(cache.to_peer)}]
                 elif cn == "PingRequestCache":
                     ping.append(self.ident("ping", nm, cache.number))
+                elif cn == "TestRequestCache":
+                    test.append(self.ident("test", nm, cache.number))
             st["retryC"][nm], st["createdC"][nm], st["createC"][nm], st["pingC"][nm] = retry, sorted(created), create, sorted(ping)
+            st["testC"][nm] = sorted(test)
         st["net"] = [self.describe(d) for d in self.net.inflight]
         st["exitLog"] = self.exit_log()
         st["origLog"] = [{"n": n, "cid": self.cid(c), "p": self.payload_id(data),
@@ -372,6 +377,12 @@ class OnionWorld:
         cb.hs_session_keys = generate_session_keys(secret)
         self.keys.setdefault(bytes(ca.hs_session_keys.key_forward), ca.hs_session_keys)
         return self.log("LinkE2E", rp=rp, c1=c1, c2=c2, o1=o1, k1=k1, o2=o2, k2=k2)
+
+    def send_test(self, o, spec_cid, request_size=0, response_size=0):
+        ov = self.ov[o]
+        c = ov.circuits[self.real_cid(spec_cid)]
+        self.loop.call(ov.send_test_request, c, request_size, response_size)
+        return self.log("SendTest", o=o, cid=spec_cid)
 
     def send_e2e(self, o, spec_cid, p, size=0):
         ov = self.ov[o]
@@ -737,6 +748,8 @@ class OnionWorld:
                             return ("CacheTimeout", {"n": nm, "kind": "create", "k": self.ident("create", nm, key.number)})
                         if cn == "PingRequestCache":
                             return ("CacheTimeout", {"n": nm, "kind": "ping", "k": self.ident("ping", nm, key.number)})
+                        if cn == "TestRequestCache":
+                            return ("CacheTimeout", {"n": nm, "kind": "ping", "k": self.ident("test", nm, key.number)})
                         return ("Noop", {"what": "%s:rc:%s" % (nm, key)})
                     return ("Noop", {"what": "%s:sock:%s" % (nm, key)})
         return ("Noop", {"what": "unowned"})
